@@ -3,7 +3,7 @@
    Print Assumptions.  [lin g i ss] is the sum of column i over the samples selected by g; with
    g = "entry e is the leaf" / "entry e is on the stack" it is the flat / cum number of entry e. *)
 From Coq Require Import QArith Qabs.
-From PV Require Import M_Combine S_Measure L_Measure S_Combine L_Combine Gen.Gen_UnitTable.
+From PV Require Import M_Combine M_CombineCli S_Measure L_Measure S_Combine L_Combine L_CombineCli Gen.Gen_UnitTable.
 Open Scope Z_scope.
 
 (* -- the numbers a -top report prints are the entry-level sums, in int64 -- *)
@@ -145,6 +145,49 @@ Theorem roundtrip_needs_label :
 Proof. vm_compute. split; reflexivity. Qed.
 Print Assumptions roundtrip_needs_label.
 
+(* -- the glue in front of the pipeline (cli.go parseFlags): which positional arguments are
+      sources.  "Given several source profiles the report equals the sum of their reports" is about
+      EVERY profile named on the command line: the only argument that may be taken out of the
+      list is a first one that the ObjTool opens as an executable, and only when more follow.
+      Tied to the code by the end-to-end streams (driver.PProf on files named by content hashes,
+      ordinary names, names needing escaping, the same file twice, an executable first). -- *)
+Theorem cli_sources_only_drops_leading_binary : forall is_binary args,
+  cli_sources is_binary args = args \/
+  exists a0 a1 r, args = a0 :: a1 :: r /\ is_binary a0 = true /\ cli_sources is_binary args = a1 :: r.
+Proof. exact cli_sources_shape_lemma. Qed.
+Print Assumptions cli_sources_only_drops_leading_binary.
+
+Theorem cli_sources_keeps_every_profile : forall is_binary args,
+  (forall a, In a args -> is_binary a = false) -> cli_sources is_binary args = args.
+Proof. exact cli_sources_all_lemma. Qed.
+Print Assumptions cli_sources_keeps_every_profile.
+
+(* the comparison flags reach fetchProfiles unchanged: sources as above, -normalize as given,
+   -diff_base wins the role of base list and sets the labelling, never both kinds of base *)
+Theorem cli_plan_passes_flags : forall is_binary c pl,
+  cli_plan is_binary c = Ok pl ->
+  pl_srcs pl = cli_sources is_binary (c_args c)
+  /\ pl_normalize pl = c_normalize c
+  /\ pl_diffbase pl = negb (match drop_empty (c_diffbase c) with [] => true | _ => false end)
+  /\ pl_bases pl = (if pl_diffbase pl then drop_empty (c_diffbase c) else drop_empty (c_base c))
+  /\ (drop_empty (c_base c) = [] \/ drop_empty (c_diffbase c) = [])
+  /\ (c_normalize c = true -> pl_bases pl <> []).
+Proof. exact cli_plan_ok_lemma. Qed.
+Print Assumptions cli_plan_passes_flags.
+
+(* `pprof [report flags] src...` without an executable: what is fetched is the combination of
+   every positional argument in order (to which report_additive then applies) *)
+Theorem cli_fetch_plain_is_fetch_of_all : forall keep uts is_binary files c,
+  c_args c <> [] -> c_base c = [] -> c_diffbase c = [] -> c_normalize c = false ->
+  (forall a, In a (c_args c) -> is_binary a = false) ->
+  cli_fetch keep uts is_binary files c =
+  match resolve files (c_args c) with
+  | [] => Err "src:none-fetched"%string
+  | srcs => fetch keep uts false false srcs []
+  end.
+Proof. exact cli_fetch_plain_lemma. Qed.
+Print Assumptions cli_fetch_plain_is_fetch_of_all.
+
 (* -- statements kept in full but NOT proved here (fallback ladder of DESIGN 5.22): each is covered on
       every run by the correspondence of the executable model with the implementation and by the
       evaluated specification checker S_Combine.spec_ok; the theorems above are their proved parts -- *)
@@ -194,5 +237,9 @@ Example flat_selector_respects_key : forall p e, respects_key (flat_g p e).
 Proof. exact flat_g_respects. Qed.
 Example cum_selector_respects_key : forall p e, respects_key (cum_g p e).
 Proof. exact cum_g_respects. Qed.
+Example hash_named_first_argument_is_a_source :
+  cli_sources (fun _ => false) ["5d41402abc4b2a76"; "7d793037a0760186"; "cafe"]%string
+  = ["5d41402abc4b2a76"; "7d793037a0760186"; "cafe"]%string.
+Proof. reflexivity. Qed.
 Example ms_to_ns_is_integer : (fst (scale unit_types 1 "ms" "ns") == inject_Z 1000000)%Q.
 Proof. vm_compute. reflexivity. Qed.
